@@ -16,7 +16,7 @@ from vf import oalsyn
 SUPPORTS_REPLAY = True
 SHARDS = {'quick': 16, 'thorough': 64}
 TIMEOUT = {'quick': 1500, 'thorough': 7200}
-MUST_HIT = ['EarlierObject.rechecked', 'Position.after-rejected-text', 'Position.nodes-compared', 'Position.multi-line-expression', 'Position.newline-in-end-keyword',
+MUST_HIT = ['Totality.long-or-deep-program', 'EarlierObject.rechecked', 'Position.after-rejected-text', 'Position.nodes-compared', 'Position.multi-line-expression', 'Position.newline-in-end-keyword',
             'Position.comment-between-tokens', 'Totality.parsed', 'Totality.rejected', 'CpuBudget.guarded',
             'Totality.unterminated-comment', 'Position.comment-with-other-line-boundary-character']
 MUST_REACH = ['bridgepoint/oal.py:set_positional_info', 'bridgepoint/oal.py:find_column',
@@ -68,16 +68,17 @@ def totality(ctx, text, kind):
     from bridgepoint import oal
     ctx.hit('CpuBudget.guarded')
     ctx.guard(5 + len(text) // 1000, 'totality/cpu-budget', dict(text=text, kind=kind))
+    import sys
+    limit = sys.getrecursionlimit()
+    if kind == 'long':
+        # the interpreter's default stack depth, as a caller of the library has it (the workers raise it for the harness)
+        sys.setrecursionlimit(1000)
     try:
         oal.parse(text)
         ctx.hit('Totality.parsed')
         return True
     except oal.ParseException:
         ctx.hit('Totality.rejected')
-        return False
-    except RecursionError:
-        # deep nesting beyond the interpreter's stack is a resource limit, not a parser verdict
-        ctx.count('recursion-limit')
         return False
     except Exception as e:
         import traceback
@@ -87,6 +88,7 @@ def totality(ctx, text, kind):
                       'parse raised %s: %s' % (type(e).__name__, str(e)[:200]), case=dict(text=text))
         return None
     finally:
+        sys.setrecursionlimit(limit)
         ctx.unguard()
 
 
@@ -121,6 +123,42 @@ def repetition(rng):
     head = rng.choice(('/*', '/*', '/*', 'x = 1; /*', '"', "'", '//', 'end', 'x = ', '', 'x = 1.'))
     tail = rng.choice(('', '', '*', '/', 'if', '"', "'", ';', '*/'))
     return head + unit * n + tail
+
+
+def long_program(rng):
+    '''
+    valid texts that are long or deep in one direction (the parser works through them with an explicit stack: no
+    text of these shapes ever ended in anything but a tree on the unchanged sources, up to 20 000 statements)
+    '''
+    n = rng.choice((60, 400, 1100, 1600, 4000))
+    k = rng.randrange(12)
+    op = rng.choice(('+', '-', '*', 'and', 'or', '|'))
+    atom = 'true' if op in ('and', 'or') else rng.choice(('1', 'a', '2.5'))
+    if k == 0:
+        return 'x = ' + (' %s ' % op).join([atom] * n) + ';'
+    if k == 1:
+        return 'x = ' + rng.choice(('not ', '- ', '+ ', 'not_empty ')) * n + rng.choice(('true', '1', 'a')) + ';'
+    if k == 2:
+        return 'x = ' + '(' * n + '1' + ')' * n + ';'
+    if k == 3:
+        kind = rng.choice(('if', 'while', 'for'))
+        head = {'if': 'if (true)\n', 'while': 'while (false)\n', 'for': 'for each a in as\n'}[kind]
+        return head * n + 'x = 1;\n' + ('end %s;\n' % kind) * n
+    if k == 4:
+        return 'x = a' + ''.join('.f%d' % i for i in range(n)) + ';'
+    if k == 5:
+        return 'x = ' + ('%s %s (' % (atom, op)) * n + atom + ')' * n + ';'
+    if k == 6:
+        return 'if (true)\n x = 1;\n' + 'elif (true)\n x = 2;\n' * n + 'end if;'
+    if k == 7:
+        return 'x = 1;\n' * n
+    if k == 8:
+        return 'x = ::f(' + ', '.join('p%d: %d' % (i, i) for i in range(n)) + ');'
+    if k == 9:
+        return 'x = a' + '[1]' * n + ';'
+    if k == 10:
+        return 'select many xs from instances of A where (' + ' and '.join(['selected.x == 1'] * n) + ');'
+    return 'select many xs related by a' + ''.join('->K%d[R%d]' % (i % 7, i % 9 + 1) for i in range(n)) + ';'
 
 
 def random_string(rng):
@@ -189,7 +227,7 @@ def run(ctx):
     if ctx.params.get('replay'):
         text = ctx.params['replay']['case']['text']
         print(repr(text[:500]))
-        print('totality ->', totality(ctx, text, 'replay'))
+        print('totality ->', totality(ctx, text, 'long'))
         return
     quick = ctx.tier == 'quick'
     g = oalsyn.Gen(rng)
@@ -208,6 +246,11 @@ def run(ctx):
             kind, text = 'repetition', repetition(rng)
             if text.startswith('/*') or '/*' in text[:12]:
                 ctx.hit('Totality.unterminated-comment')
+        elif k < 0.09:
+            kind, text = 'long', long_program(rng)
+            if rng.random() < 0.5:
+                text = mutate(rng, text)
+            ctx.hit('Totality.long-or-deep-program')
         elif k < 0.25:
             kind, text = 'unicode', random_string(rng)
         elif k < 0.45:
